@@ -33,6 +33,7 @@ type Item struct {
 	Else  []Item            // if-else
 	Arms  map[string][]Item // switch: constant name -> items
 	Cond  string
+	Expr  ast.Expr // the operand expression (scalars and byte strings)
 	// ConstWidth: for pads/bytes of constant size
 }
 
@@ -181,7 +182,7 @@ func (x *extractor) ioItem(call *ast.CallExpr) (Item, bool, bool) {
 			t = p.Elem() // binary.Read needs a pointer; binary.Write accepts one and encodes the pointee
 		}
 		if w := basicWidth(t); w > 0 {
-			return Item{Kind: itScalar, Width: w, Field: x.fieldOf(arg), Ref: exprKey(arg), Pos: call.Pos()}, true, true
+			return Item{Kind: itScalar, Width: w, Field: x.fieldOf(arg), Ref: exprKey(arg), Pos: call.Pos(), Expr: arg}, true, true
 		}
 		if isByteSlice(t) {
 			if mk, ok := ast.Unparen(arg).(*ast.CallExpr); ok {
@@ -189,7 +190,13 @@ func (x *extractor) ioItem(call *ast.CallExpr) (Item, bool, bool) {
 					return Item{Kind: itPad, Ref: exprKey(arg), Pos: call.Pos()}, true, true
 				}
 			}
-			return Item{Kind: itBytes, Field: x.fieldOf(arg), Ref: exprKey(arg), Pos: call.Pos()}, true, true
+			return Item{Kind: itBytes, Field: x.fieldOf(arg), Ref: exprKey(arg), Pos: call.Pos(), Expr: arg}, true, true
+		}
+		// a slice of fixed-width values written or read in one call is that many scalars
+		if sl, ok := t.Underlying().(*types.Slice); ok {
+			if w := basicWidth(sl.Elem()); w > 0 {
+				return Item{Kind: itLoop, Cond: "whole-slice", Pos: call.Pos(), Body: []Item{{Kind: itScalar, Width: w, Field: x.fieldOf(arg), Ref: exprKey(arg) + "[i]", Pos: call.Pos(), Expr: arg}}}, true, true
+			}
 		}
 		x.problems = append(x.problems, "binary I/O of unsupported type "+t.String()+" at "+f.w.Pos(call.Pos()))
 		return Item{}, false, true
@@ -514,8 +521,120 @@ func checkCodecPair(c *Ctx, rule, wname, rname string) ([]Item, []Item) {
 		c.Fail(rule, key, wf.Decl.Pos(), "writer and reader disagree: %s. writer grammar: %s ; reader grammar: %s", d, itemsString(wi), itemsString(ri))
 	} else {
 		c.OK(rule, key, wf.Decl.Pos(), countItems(wi), "grammars equal: %s", itemsString(wi))
+		checkWriterOperands(c, rule, key, wf, wi, ri)
 	}
 	return wi, ri
+}
+
+// checkWriterOperands: value-level clauses on a writer whose grammar equals the reader's.
+//   - a length prefix that is computed (a call) is len() of exactly the bytes written after it — the byte
+//     length, not a character count or the length of something else;
+//   - an operand that is a local with several definitions stands for the reader's field on every path
+//     (a writer that emits the field only "when it matters" does not write what was in memory).
+func checkWriterOperands(c *Ctx, rule, key string, wf *Func, wi, ri []Item) {
+	// a count the reader uses to bound its loops is, on the writer's side, the length of the very
+	// collection the writer's corresponding loop walks
+	var counts func(w, r []Item)
+	counts = func(w, r []Item) {
+		for i := 0; i < len(w) && i < len(r); i++ {
+			if r[i].Kind != itScalar || r[i].Expr == nil || w[i].Expr == nil {
+				continue
+			}
+			u, ok := ast.Unparen(r[i].Expr).(*ast.UnaryExpr)
+			if !ok || u.Op != token.AND {
+				continue
+			}
+			rid, ok := ast.Unparen(u.X).(*ast.Ident)
+			if !ok {
+				continue
+			}
+			// writer operand -> len(S)
+			we := wf.stripConv(w[i].Expr)
+			wname := ""
+			if id, ok := ast.Unparen(we).(*ast.Ident); ok {
+				wname = id.Name
+				if rhs, _, ok := wf.definedBy(wf.Decl.Body, wf.ObjOf(id)); ok {
+					we = wf.stripConv(rhs)
+				}
+			}
+			call, ok := ast.Unparen(we).(*ast.CallExpr)
+			if !ok || len(call.Args) != 1 {
+				continue
+			}
+			if id, ok := call.Fun.(*ast.Ident); !ok || id.Name != "len" {
+				continue
+			}
+			S := exprKey(call.Args[0])
+			for j := i + 1; j < len(w) && j < len(r); j++ {
+				if r[j].Kind != itLoop || w[j].Kind != itLoop || !strings.Contains(r[j].Cond, rid.Name) {
+					continue
+				}
+				wc := w[j].Cond
+				if wc == "whole-slice" && len(w[j].Body) == 1 && w[j].Body[0].Expr != nil {
+					wc = exprKey(w[j].Body[0].Expr)
+				}
+				k := key + "|count-of|" + S + "#" + itoa(j)
+				if strings.Contains(wc, S) || (wname != "" && strings.Contains(wc, wname)) {
+					c.OK(rule, k, w[j].Pos, 1, "the count written is the length of the collection the loop walks")
+				} else {
+					c.Fail(rule, k, w[i].Pos, "the writer announces len(%s) items but its loop walks %s: after a split the two lengths differ and the reader, which trusts the count, runs past the items that were written", S, wc)
+				}
+			}
+		}
+	}
+	counts(wi, ri)
+	var walk func(w, r []Item)
+	walk = func(w, r []Item) {
+		for i := 0; i < len(w) && i < len(r); i++ {
+			a, b := w[i], r[i]
+			switch a.Kind {
+			case itLoop, itIf:
+				walk(a.Body, b.Body)
+				walk(a.Else, b.Else)
+				continue
+			case itSwitch:
+				for k, wa := range a.Arms {
+					walk(wa, b.Arms[k])
+				}
+				continue
+			}
+			if a.Expr == nil {
+				continue
+			}
+			// length prefix
+			if a.Kind == itScalar && i+1 < len(w) && w[i+1].Kind == itBytes && w[i+1].Expr != nil {
+				if call, ok := ast.Unparen(wf.stripConv(a.Expr)).(*ast.CallExpr); ok {
+					k := key + "|length-prefix|" + exprKey(w[i+1].Expr)
+					isLen := false
+					if id, ok := call.Fun.(*ast.Ident); ok && id.Name == "len" && len(call.Args) == 1 {
+						if _, isB := wf.ObjOf(id).(*types.Builtin); isB {
+							isLen = true
+						}
+					}
+					payload := exprKey(wf.stripConv(w[i+1].Expr))
+					switch {
+					case !isLen:
+						c.Fail(rule, k, a.Pos, "the length written in front of %s is %s, not len() of those bytes: for a value whose byte length differs (a non-ASCII string) the reader takes too few bytes and decodes the rest of the record from the wrong position", exprKey(w[i+1].Expr), exprKey(a.Expr))
+					case exprKey(wf.stripConv(call.Args[0])) != payload:
+						c.Fail(rule, k, a.Pos, "the length prefix is len(%s) but the bytes written are %s", exprKey(call.Args[0]), exprKey(w[i+1].Expr))
+					default:
+						c.OK(rule, k, a.Pos, 1, "prefix = len(payload) in bytes")
+					}
+				}
+			}
+			// conditional operand
+			if id, ok := ast.Unparen(wf.stripConv(a.Expr)).(*ast.Ident); ok && b.Field != nil && a.Field == nil {
+				obj := wf.ObjOf(id)
+				if v, isVar := obj.(*types.Var); isVar && !v.IsField() && !isParamOf(wf, obj) {
+					defs := wf.assignsTo(wf.Decl.Body, obj)
+					if len(defs) >= 2 {
+						c.Fail(rule, key+"|operand|"+id.Name, a.Pos, "the writer emits the local %s, which has %d different definitions, where the reader restores field %s: on some path what is written is not the field's value (a page or record that is read back differs from the one in memory)", id.Name, len(defs), b.Field.Name())
+					}
+				}
+			}
+		}
+	}
+	walk(wi, ri)
 }
 
 func countItems(items []Item) int {
